@@ -860,7 +860,22 @@ def run_exit_race(arg):
             env["WILD_VERIF_AT"] = how.split("@", 1)[1]
             env["WILD_VERIF_DO"] = how.split("@", 1)[0]
         before = {a: snapshot(ctx[a]) for a in ("w", "in", "tmp")}
+        released = []
+        if how == "hold-remove":
+            # If wild exits while the task is held, the task never ran: that is the history under
+            # test. A wild that waits for the task instead is released after 3 s (it would
+            # otherwise sit in the pause for its 60 s limit) and then judged like any finished link.
+            import threading
+
+            def release():
+                if wait_for(os.path.join(pdir, "reached"), 140):
+                    time.sleep(3.0)
+                    released.append(time.time())
+                    with open(os.path.join(pdir, "go"), "w"):
+                        pass
+            threading.Thread(target=release, daemon=True).start()
         rc, out, err = run_wild(argv, ctx["w"], env, timeout=150)
+        t_exit = time.time()
         reached = os.path.exists(os.path.join(pdir, "reached"))
         after = {a: snapshot(ctx[a]) for a in ("w", "in", "tmp")}
         case2 = dict(case, outcome="ok" if how == "hold-remove" else "panic",
@@ -870,6 +885,7 @@ def run_exit_race(arg):
                                          err.decode("utf-8", "replace"))
         return {"spec": spec, "rc": rc, "viol": viol, "counts": counts, "touched": touched,
                 "reached": reached, "argv": argv,
+                "exit_waited_for_task": bool(released) and t_exit >= released[0],
                 "env": {k: v for k, v in env.items() if k != "TMPDIR"}}
     finally:
         shutil.rmtree(root, ignore_errors=True)
@@ -1027,10 +1043,11 @@ def main():
         t2 = time.time()
         especs = exit_race_specs(chk.thorough)
         eresults = vlib.pmap(run_exit_race, [(s, base) for s in especs], procs=16, chunksize=1)
-        held = 0
+        held = waited = 0
         for r in eresults:
             if r["spec"]["how"] == "hold-remove" and r["reached"]:
                 held += 1
+                waited += bool(r.get("exit_waited_for_task"))
             if isinstance(r["rc"], str):
                 chk.machinery(f"exit-race {r['spec']}: {r['rc']}")
             for k, v in r["counts"].items():
@@ -1111,6 +1128,7 @@ def main():
         "shared_name_step_orders_realised": orders,
         "shared_name_order_shapes": sorted(shapes),
         "part_C_remove_task_held_until_exit": held,
+        "part_C_exit_waited_for_the_held_remove_task_then_released": waited,
         "counted_not_raised": counters,
         "thinning": ("full product of all axes with the five name-like siblings packed into one "
                      "directory (stage 2); each sibling alone only for the outcomes that reach "
